@@ -113,3 +113,37 @@ func c14PoolHygiene(c *Ctx) {
 		c.Unresolved("C14.R6", fmt.Sprintf("fields of the pooled chain written in use (found %d)", n))
 	}
 }
+
+// c14SingleReply (R7): a reply that a filter installed is never replaced.
+// SendHijackReply / SendDirectResponse install the local reply (downstreamRespHeaders) without touching the response
+// token; the only asynchronous producer of a local reply, TerminateStream, must therefore refuse when a reply is already
+// installed - otherwise the client receives the terminate reply instead of the filter's answer, and that reply has not
+// passed the send filters. Clause: in TerminateStream the call that installs the terminate reply is reachable only on the
+// edge where downstreamRespHeaders is nil (besides the cleaned / generation / CAS checks of C03).
+func c14SingleReply(c *Ctx) {
+	fn := c.M("pkg/proxy", "streamReceiverFilterHandler", "TerminateStream")
+	if fn == nil {
+		c.Unresolved("C14.R7", "streamReceiverFilterHandler.TerminateStream")
+		return
+	}
+	n := 0
+	for _, cs := range callsIn(fn, false, func(cc *ssa.CallCommon) bool { return strings.HasPrefix(methodName(cc), "sendHijackReply") }) {
+		n++
+		guarded := false
+		for _, g := range guardsAt(cs.Instr.Block()) {
+			bo, ok := g.Cond.(*ssa.BinOp)
+			if !ok || !isNilConst(bo.Y) {
+				continue
+			}
+			if _, f, _, okf := loadedField(bo.X); okf && f == "downstreamRespHeaders" {
+				if (bo.Op.String() == "!=" && !g.True) || (bo.Op.String() == "==" && g.True) {
+					guarded = true
+				}
+			}
+		}
+		c.Check("C14.R7", fmt.Sprintf("%s:no-reply-installed-yet#%d", funcKey(fn), n), cs.Instr.Pos(), guarded, "the terminate reply is installed only when no reply has been installed yet", "TerminateStream can install its reply although a filter's answer is already installed (downstreamRespHeaders != nil): the client gets the terminate reply instead of the filter's single answer, and it has not passed the send filters")
+	}
+	if n < 1 {
+		c.Unresolved("C14.R7", "sendHijackReply call in TerminateStream")
+	}
+}
